@@ -545,12 +545,12 @@ class Context:
                     return v, m
         return self.full_model(TRUE, self.t_claim)
 
-    def _nice(self, nonzero=False):
+    def _nice(self, nonzero=False, span=1024):
         """Preference for replayable models: every real input is 0 or has a
-        magnitude in [2^-10, 2^10] (used only when a model is extracted)."""
+        magnitude in [1/span, span] (used only when a model is extracted)."""
         fs = []
-        lo = Poly.const(Fraction(1, 1024))
-        hi = Poly.const(1024)
+        lo = Poly.const(Fraction(1, span))
+        hi = Poly.const(span)
         for name in self.input_order:
             v = self.inputs[name]
             if vsort(v) != 'R':
@@ -566,8 +566,10 @@ class Context:
         exponent comparisons and moderate input magnitudes first."""
         tries = []
         if self.robust:
+            tries.append(self.robust + self._nice(span=8))
             tries.append(self.robust + self._nice())
             tries.append(list(self.robust))
+        tries.append(self._nice(span=8))
         tries.append(self._nice())
         self.last_model_quality = 0
         for extra in tries:
